@@ -41,9 +41,9 @@ func (c10) Assumptions() []string {
 }
 func (c10) NumCases(tier string, _ int64) int {
 	if tier == "thorough" {
-		return 10000
+		return 100000
 	}
-	return 700
+	return 3000
 }
 func (c10) Exhaustive(string) bool { return false }
 func (c10) Floors(string) []runner.Floor {
